@@ -28,6 +28,7 @@ type Op struct {
 // Case is a generated history plus schedule.
 type Case struct {
 	Container bool   `json:"container"`
+	Wrap      bool   `json:"wrap,omitempty"`   // container: every promise is installed through a wrapper type (a PromiseLike that is not a *Promise)
 	PreRes    string `json:"preres,omitempty"` // user-made promises come from NewPromiseWithResult: "" (no) | val | custom | canceled
 	Ops       []Op   `json:"ops"`
 	Sched     []byte `json:"sched"`
@@ -35,6 +36,7 @@ type Case struct {
 
 func genCase(t *rapid.T) Case {
 	c := Case{Container: rapid.Bool().Draw(t, "container")}
+	c.Wrap = c.Container && rapid.IntRange(0, 3).Draw(t, "wrap") == 0
 	c.PreRes = rapid.SampledFrom([]string{"", "", "", "", "", "val", "custom", "canceled"}).Draw(t, "preres")
 	kinds := []string{"set", "set", "await", "await", "await", "cancel", "fire"}
 	if c.Container {
@@ -82,6 +84,9 @@ func errOf(kind string, id int) error {
 	return nil
 }
 
+// wrapProm is a user-defined PromiseLike (comparable; equal iff it wraps the same promise).
+type wrapProm struct{ *promise.Promise[int] }
+
 type prom struct {
 	id     int
 	p      *promise.Promise[int]
@@ -118,7 +123,8 @@ func run11(t *testing.T, cs Case) *ev.Verdict {
 		C   bool
 		P   string
 		Ops []Op
-	}{cs.Container, cs.PreRes, cs.Ops})
+		W   bool
+	}{cs.Container, cs.PreRes, cs.Ops, cs.Wrap})
 	v.Canon = string(canon)
 	c, berr := sched.Run(t, []string{"broadcast.lock", "broadcast.unlocked", "promise.set", "promise.set.mid"}, cs.Sched, func(c *sched.Ctl) { body11(c, cs, v) })
 	v.Trace = c.Trace()
@@ -413,7 +419,11 @@ func body11(c *sched.Ctl, cs Case, v *ev.Verdict) {
 				if np == nil {
 					ctr.SetPromise(nil)
 				} else {
-					ctr.SetPromise(np.p)
+					if cs.Wrap {
+						ctr.SetPromise(wrapProm{np.p})
+					} else {
+						ctr.SetPromise(np.p)
+					}
 				}
 			})
 		case "await":
